@@ -63,10 +63,14 @@ def run_inputs(chk, quick):
     rnd = random.Random(chk.seed * 31 + 9)
     cases, descs = [], {}
     for raw, kind in inputs(rnd, 420 if quick else 4000):
-        for role_args, role in (([], 'proxy'), (['--enable-web-server'], 'proxy+web')):
+        for role_args, role in (([], 'proxy'), (['--enable-web-server'], 'proxy+web'), (['--enable-web-server', '--max-sendbuf-size', '24'], 'proxy+web, 24-byte sends')):
+            if role.endswith('sends') and rnd.random() > 0.4:
+                continue
             style = rnd.choice(['one', 'two', 'few', 'crlf'])
             conv = scen.Conversation(args=role_args)
             c = conv.client()
+            if role.endswith('sends'):
+                c.sock.cap = 40          # the wire towards the client takes 40 bytes at a time: partial writes and EAGAIN
             for piece in scen.pieces(raw, rnd, style) if raw else [b'']:
                 if piece:
                     conv.step(('c', piece))
